@@ -41,12 +41,22 @@ fn describe(e: &error::Error, sources: &[(String, String)]) -> String
 	let loc = e.verif_primary_location();
 	let mut status = Vec::new();
 	let all_ascii = sources.iter().all(|(_, s)| s.is_ascii());
+	let mut digest: u64 = 0xcbf29ce484222325;
 	for (color, ascii) in [(false, false), (false, true), (true, false), (true, true)]
 	{
 		match render(e, sources, color, ascii)
 		{
 			Ok(buf) =>
 			{
+				if !color && ascii
+				{
+					// FNV-1a of the rendered text: the determinism check compares it across processes
+					for b in &buf
+					{
+						digest ^= *b as u64;
+						digest = digest.wrapping_mul(0x100000001b3);
+					}
+				}
 				let code_tag = format!("{}", e.code());
 				let text = String::from_utf8_lossy(&buf);
 				if !text.contains(&code_tag)
@@ -66,14 +76,15 @@ fn describe(e: &error::Error, sources: &[(String, String)]) -> String
 		}
 	}
 	format!(
-		"{}@{}:{}-{}:{}:{}:{}",
+		"{}@{}:{}-{}:{}:{}:{}#{:016x}",
 		e.code(),
 		loc.source_filename,
 		loc.span.start,
 		loc.span.end,
 		loc.line_number,
 		loc.line_offset,
-		if status.is_empty() { "ok".to_string() } else { status.join(",") }
+		if status.is_empty() { "ok".to_string() } else { status.join(",") },
+		digest
 	)
 }
 
